@@ -1544,7 +1544,16 @@ class Walker:
             if ex.kind != 'fall':
                 yield ex
             else:
-                yield from self.block(n.body, ex.state)
+                # the managed region is visible in the trace ('with' ..
+                # 'endwith' on every way out of the body)
+                held = [self.canon(ex.state, it.context_expr)
+                        for it in n.items]
+                ex.state.trace.append(Event('with', n, args=held,
+                                            depth=ex.state.frame.depth))
+                for bx in self.block(n.body, ex.state):
+                    bx.state.trace.append(Event('endwith', n,
+                                                depth=bx.state.frame.depth))
+                    yield bx
 
     def try_(self, n, st):
         def finalize(ex):
